@@ -6,7 +6,11 @@ import (
 	"encoding/json"
 	"fmt"
 	"runtime"
+	"strings"
+	"sync"
 	"time"
+
+	"github.com/eclipse/paho.mqtt.golang/packets"
 
 	"github.com/emitter-io/emitter/internal/message"
 	"github.com/emitter-io/emitter/internal/security"
@@ -118,6 +122,8 @@ func handle(in []byte) []byte {
 		case <-time.After(20 * time.Second):
 			rs.Canary = "the attacked connection's goroutine did not terminate within 20 s after the client went away"
 		}
+	case "clients":
+		rs.Canary = e.concurrentClients(rq.Data)
 	case "gossip":
 		d, err := e.b.S.VerifSwarm().OnGossip(rq.Data)
 		rs.Ret = fmt.Sprintf("delta=%v err=%v", d != nil, err)
@@ -146,6 +152,65 @@ func handle(in []byte) []byte {
 	}
 	out, _ := json.Marshal(rs)
 	return out
+}
+
+// ClientsSpec: well-formed clients working at the same time (the input of kind "clients").
+type ClientsSpec struct {
+	Clients int      `json:"clients"`
+	Filters []string `json:"filters"` // filter of client i = Filters[i % len]
+	Msgs    int      `json:"msgs"`
+	Size    int      `json:"size"`
+}
+
+// concurrentClients: every client subscribes its filter, then all publish to the same channels at once, ping and leave.
+func (e *childEnv) concurrentClients(data []byte) string {
+	var sp ClientsSpec
+	if err := json.Unmarshal(data, &sp); err != nil {
+		panic(err)
+	}
+	e.n++
+	ns := fmt.Sprintf("w%d", e.n)
+	errs := make(chan string, sp.Clients)
+	start := make(chan struct{})
+	var wg sync.WaitGroup
+	for i := 0; i < sp.Clients; i++ {
+		wg.Add(1)
+		go func(i int) {
+			defer wg.Done()
+			c := e.b.Attach(fmt.Sprintf("w%d", i))
+			defer c.Conn.Close()
+			if err := c.Connect(fmt.Sprintf("w%d", i), "", nil); err != nil {
+				errs <- "connect: " + err.Error()
+				return
+			}
+			f := strings.ReplaceAll(sp.Filters[i%len(sp.Filters)], "NS", ns)
+			if codes, _, err := c.Subscribe(1, e.key+"/"+f); err != nil || codes[0] == 0x80 {
+				errs <- fmt.Sprintf("subscribe %s: %v %v", f, codes, err)
+				return
+			}
+			<-start
+			for m := 0; m < sp.Msgs; m++ {
+				p := packets.NewControlPacket(packets.Publish).(*packets.PublishPacket)
+				p.TopicName, p.Payload = fmt.Sprintf("%s/%s/x%d/", e.key, ns, m%3), make([]byte, sp.Size)
+				if err := c.Send(p); err != nil {
+					errs <- "publish: " + err.Error()
+					return
+				}
+			}
+			if _, err := c.Barrier(); err != nil {
+				errs <- "a well-formed client is no longer served: " + err.Error()
+			}
+		}(i)
+	}
+	time.Sleep(5 * time.Millisecond)
+	close(start)
+	wg.Wait()
+	select {
+	case m := <-errs:
+		return m
+	default:
+		return ""
+	}
 }
 
 func init() { vkit.RegisterWorker("c09", handle) }
